@@ -156,7 +156,7 @@ def ownership(P, R, rule='C14.OWN.1'):
     R.floor(rule, 3, 'pointer moves from the scratch tree')
 
 
-def scanner_typestate(f, ptr_pred, rule, R, what, ctype_ok=('isspace', 'isdigit', 'isalpha', 'isalnum'), stop=None):
+def scanner_typestate(f, ptr_pred, rule, R, what, ctype_ok=('isspace', 'isdigit', 'isalpha', 'isalnum'), stop=None, exit_check=True):
     """Typestate for a scan over a NUL-terminated buffer.  States describe the byte under the pointer:
     'cur?' valid position, byte untested; 'curNZ' byte known non-NUL; 'curZ' byte known NUL;
     ('over', v) the pointer has just been advanced over a byte that was read into v ('' = compared
@@ -238,6 +238,23 @@ def scanner_typestate(f, ptr_pred, rule, R, what, ctype_ok=('isspace', 'isdigit'
         return st
 
     def on_edge(st, e):
+        # `switch (*p++)` / `switch (v)` with v the byte just stepped over: the labels say whether it was the NUL
+        if e.label in ('case', 'default') and e.cond is not None and isinstance(st, tuple) and st[0] == 'over':
+            v = st[1]
+            c0 = e.cond
+            subj = (v and is_var(c0, v)) or (not v and isinstance(c0, dict) and c0.get('k') == 'un' and c0.get('op') == '*' and isinstance(c0.get('e'), dict)
+                                                and c0['e'].get('k') == 'un' and c0['e'].get('op') == '++' and c0['e'].get('postfix') and ptr_pred(c0['e'].get('e')))
+            if subj:
+                if e.label == 'case':
+                    vs = e.vs or []
+                    if vs and all(x != 0 for x in vs):
+                        return 'cur?'
+                    if vs and all(x == 0 for x in vs):
+                        return ('out', v)
+                    return st
+                if 0 in (e.notin or []):
+                    return 'cur?'
+                return st
         r = rules.edge_rel(e)
         if not r:
             return st
@@ -275,7 +292,7 @@ def scanner_typestate(f, ptr_pred, rule, R, what, ctype_ok=('isspace', 'isdigit'
                 return 'curNZ'
         return st
     before, at_exit, sin, bout = f.forward('cur?', on_event, on_edge, stop=(stop.bid, stop.idx) if stop is not None else None)
-    for st in at_exit:
+    for st in (at_exit if exit_check else ()):
         if st == 'out' or (isinstance(st, tuple) and st[0] in ('over', 'out')):
             problems.append((None, 'a path returns with the scan pointer possibly beyond the terminating NUL'))
     seen = set()
